@@ -304,6 +304,8 @@ class Interp:
         self.in_clause = False      # equality of mapped sequences introduces fresh witnesses: only sound in clauses
         self._generic_key = None
         self._generic_store = None
+        self.loop_specs = {}        # (function qualname, loop ordinal) -> LoopSpec  (inductive invariants from contracts)
+        self.loop_obligations = []  # (description, z3 Bool that must be valid under the path condition at that point)
 
     # -- solver ---------------------------------------------------------------------------------------------------------
     def _check(self, extra):
@@ -608,7 +610,8 @@ class Interp:
             return len(v.items) > 0
         if isinstance(v, SDict):
             if v.rest is not None and not v.items:
-                raise Unsupported("truthiness of a dict with symbolic remainder")
+                dict_nonempty = z3.Function("dict_nonempty", z3.ArraySort(z3.StringSort(), Z.JV), z3.BoolSort())
+                return dict_nonempty(self.rest_term(v))
             return len(v.items) > 0
         if isinstance(v, SSeq):
             return z3.Length(v.base) > 0
@@ -1106,6 +1109,9 @@ class Interp:
         if isinstance(it, SV):
             it = self.view(it)
         if isinstance(it, SSeq):
+            spec = self.loop_specs.get((fr.qualname, self._loop_ordinal(fr, st)))
+            if spec is not None:
+                return self.exec_for_invariant(st, fr, it, spec)
             return self.exec_for_generic(st, fr, it)
         if isinstance(it, SDictItems):
             return self.exec_for_dictitems(st, fr, it.d)
@@ -1122,6 +1128,78 @@ class Interp:
                 continue
         if not broke:
             self.exec_block(st.orelse, fr)
+
+    def _loop_ordinal(self, fr, st):
+        """ordinal of a loop statement among the for/while statements of its function (source order)"""
+        msrc, fn = source.func(fr.qualname) if fr.qualname else (None, None)
+        if fn is None:
+            return -1
+        loops = [n for n in ast.walk(fn) if isinstance(n, (ast.For, ast.While))]
+        loops.sort(key=lambda n: (n.lineno, n.col_offset))
+        for i, n in enumerate(loops):
+            if n.lineno == st.lineno and n.col_offset == st.col_offset:
+                return i
+        return -1
+
+    def exec_for_invariant(self, st, fr, seq, spec):
+        """`for x in <sequence of symbolic length>` by an inductive invariant from the contract (LoopSpec):
+             establish   Inv(state, seen = [])                                         [obligation]
+             preserve    Inv(state, seen) and base = seen ++ [x] ++ rest  {body}  Inv(state', seen ++ [x])   [obligation]
+             use         after exhaustion: Inv(state', base);  on break: the state at the break, with x in base.
+           Variables assigned in the body are havocked by the generators of the spec (typed havoc); everything else in
+           the frame must not be mutated by the body (checked for lists/dicts/sets reachable by name)."""
+        Z = self.Z
+        if st.orelse:
+            raise Unsupported("for/else with an invariant")
+        E = z3.Empty(z3.SeqSort(Z.JV))
+        assigned = _assigned_names(st.body) | _assigned_names([ast.Assign(targets=[st.target], value=ast.Constant(None))])
+        target_names = _assigned_names([ast.Assign(targets=[st.target], value=ast.Constant(None))])
+        missing = (assigned - target_names) - set(spec.havoc) - {n for n in assigned if n not in fr.locals}
+        if missing:
+            raise Unsupported(f"loop invariant does not say how to havoc {sorted(missing)}")
+        self._loop_check(f"{fr.qualname} loop invariant holds on entry", spec.inv(self, fr.locals, E))
+        # three continuations, chosen non-deterministically: (a) exit after exhaustion, (b) one generic iteration
+        which = 0 if self.branch_free() else 1
+        for name, gen in spec.havoc.items():
+            fr.locals[name] = gen(self)
+        if which == 0:
+            self.assume(_b(spec.inv(self, fr.locals, seq.base)))
+            return
+        seen = self.fresh("seen", z3.SeqSort(Z.JV))
+        rest = self.fresh("rest", z3.SeqSort(Z.JV))
+        x = self.fresh("elem", Z.JV)
+        self.assume(seq.base == z3.Concat(seen, z3.Unit(x), rest))
+        if seq.dom is not None:
+            self.assume(seq.dom(x))
+        self.assume(_b(spec.inv(self, fr.locals, seen)))
+        val = SV(x)
+        for f in seq.maps:
+            val = f(val)
+        containers = {n: (v, _container_snapshot(v)) for n, v in fr.locals.items() if isinstance(v, (SList, SDict, SSet))
+                      and n not in spec.havoc}
+        self.assign(st.target, val, fr)
+        try:
+            self.exec_block(st.body, fr)
+        except _Break:
+            # leaves the loop with the current state: nothing more to prove here, the code after the loop continues
+            return
+        except _Continue:
+            pass
+        for n, (v, snap) in containers.items():
+            if _container_snapshot(v) != snap and n not in spec.mutates:
+                raise Unsupported(f"loop body mutates {n}, which the invariant does not mention")
+        self._loop_check(f"{fr.qualname} loop invariant preserved", spec.inv(self, fr.locals, z3.Concat(seen, z3.Unit(x))))
+        raise Infeasible()       # the inductive step is a proof obligation only; execution continues on continuation (a)
+
+    def _loop_check(self, what, cond):
+        if cond is True:
+            self.loop_obligations.append((what, True))
+            return
+        neg = z3.BoolVal(True) if cond is False else z3.Not(cond)
+        r, s = self._check([neg])
+        self.loop_obligations.append((what, r == z3.unsat))
+        if r != z3.unsat:
+            raise LoopInvariantFailure(what + (": solver returned unknown" if r == z3.unknown else ": counterexample exists"))
 
     def exec_for_generic(self, st, fr, seq):
         """`for x in <list of symbolic length>`: the body is executed once on a generic element.  Supported shape (the
@@ -1334,6 +1412,8 @@ class Interp:
         if isinstance(obj, SList) and isinstance(key, int):
             obj.items[key] = v
             return
+        if isinstance(obj, SOpaque) and hasattr(obj, "setitem"):
+            return obj.setitem(self, key, v)
         raise Unsupported(f"item assignment on {type(obj).__name__}")
 
     def del_item(self, obj, key):
@@ -1343,6 +1423,8 @@ class Interp:
                 self.raise_(KeyError, str(k))
             del obj.items[k]
             return
+        if isinstance(obj, SOpaque) and hasattr(obj, "delitem"):
+            return obj.delitem(self, key)
         raise Unsupported("del item")
 
     def hashable(self, key):
@@ -1423,11 +1505,37 @@ class Interp:
         for k, v in zip(node.keys, node.values):
             if k is None:
                 src = self.eval(v, fr)
+                if isinstance(src, SOpaque) and hasattr(src, "lookup"):
+                    # {k1: v1, **m, ...}: a copy of m; earlier keys survive only where m has no such key
+                    m = src.copy()
+                    for key, val in d.items.items():
+                        found, _ = m.lookup(self, key)
+                        if not found:
+                            m.store(self, key, val)
+                    m.log = []
+                    m.displayed_before = dict(d.items)
+                    d = m
+                    continue
+                if isinstance(d, SOpaque):
+                    raise Unsupported("second ** in a dict display over a dict of unknown content")
                 if not isinstance(src, SDict):
                     raise Unsupported("** of non-dict")
                 d.items.update(src.items)
             else:
-                d.items[self.hashable(self.eval(k, fr))] = self.eval(v, fr)
+                if isinstance(d, SOpaque):
+                    d.store(self, self.eval(k, fr), self.eval(v, fr))
+                    continue
+                kv = self.eval(k, fr)
+                try:
+                    hk = self.hashable(kv)
+                except Unsupported:
+                    # symbolic key in a dict display: continue as a dict of (so far) known entries
+                    from .absdata import LazyMap
+                    m = LazyMap("dict-display", None, [(kk, vv) for kk, vv in d.items.items()], complete=True)
+                    m.store(self, kv, self.eval(v, fr))
+                    d = m
+                    continue
+                d.items[hk] = self.eval(v, fr)
         return d
 
     def e_IfExp(self, node, fr):
@@ -1925,7 +2033,7 @@ class Interp:
         if m is not None:
             return m(self, args, kwargs)
         if issubclass(cls, BaseException):
-            obj = SObj(cls, {"args": STuple(list(args))})
+            obj = SObj(cls, {"args": STuple(list(args)), **{f"kw_{k}": v for k, v in kwargs.items()}})
             init = cls.__dict__.get("__init__")
             if init is not None and inspect.isfunction(init) and (getattr(init, "__module__", "") or "").startswith(
                     ("pyvcfrag_", "openapi_python_client")):
@@ -1965,6 +2073,31 @@ class Interp:
     def call_method(self, recv, name, args, kwargs):
         from . import libmodels
         return libmodels.call_method(self, recv, name, args, kwargs)
+
+
+class LoopInvariantFailure(Exception):
+    pass
+
+
+class LoopSpec:
+    def __init__(self, inv, havoc=None, mutates=()):
+        self.inv = inv              # (I, locals, seen: z3 Seq JV) -> z3 Bool
+        self.havoc = havoc or {}    # variable -> (I) -> fresh value of the right shape
+        self.mutates = set(mutates)
+
+
+def _b(x):
+    return z3.BoolVal(x) if isinstance(x, bool) else x
+
+
+def _container_snapshot(v):
+    if isinstance(v, SList):
+        return ("list", tuple(id(x) for x in v.items))
+    if isinstance(v, SDict):
+        return ("dict", tuple((k, id(x)) for k, x in v.items.items()), None if v.rest is None else v.rest.get_id())
+    if isinstance(v, SSet):
+        return ("set", tuple(sorted(map(repr, v.items))))
+    return None
 
 
 class _Tagged:
